@@ -18,7 +18,8 @@ def make_compare(key):
             # vicinity clustering (commute, parking) is outside the feasibility / replay specifications
             return {"skipped": True}
         ok = verdict.get("oracle", {}).get(key)
-        detail = "" if ok else f"{key} violated: " + "; ".join(info.get(key, [])[:4])
+        msgs = info.get(key, [])
+        detail = "" if ok else f"{key} violated: " + "; ".join(msgs[:4]) + (f" (+{len(msgs) - 4} more)" if len(msgs) > 4 else "")
         return {"agree": True, "holds": bool(ok), "detail": detail}
     return compare
 
@@ -64,3 +65,19 @@ RULE = ("pragen problems (4-14 jobs; random mix of: multi-task jobs with tags, a
         "maximize tours), every twelfth has long tours (30-44 jobs on 1-2 vehicles); every sixth problem asks for vicinity clustering (both visiting policies, all serving "
         "policies, with/without an explicit filtering list, relations derived in half of them) and is judged by the partition specification only. Non-trivial: >= 2 tours, or >= 1 tour and >= 1 unassigned job. "
         "Distinct = SHA-256 of the canonical case input")
+
+
+MARKER_MSG = "a listed reload/break is not at its place"
+
+
+def marker_relation_only(case, detail, m):
+    """known-finding predicate (S45): the ONLY thing wrong with the solution is that a reload / break listed in a sequence or
+    strict relation is not where the relation puts it (the customer jobs of the relation keep their order); any other message
+    on the same case is not covered"""
+    if not isinstance(detail, str) or not detail.startswith("feasible violated: ") or "more)" in detail:
+        return False
+    msgs = [x for x in detail[len("feasible violated: "):].split("; ") if x]
+    return bool(msgs) and all(MARKER_MSG in x for x in msgs)
+
+
+PREDICATES = {"marker_relation_only": marker_relation_only}
